@@ -826,6 +826,9 @@ func genBody(r *RNG, o genOpts) (body []string, hasEqu, hasGlobal bool) {
 	g.labels = known // all labels are referable (forward references included)
 	for i := 0; i < o.NStmts; i++ {
 		remaining := o.NStmts - i
+		if r.Chance(1, 30) && !o.Coff { // ORG after data or code, or a second ORG
+			body = append(body, fmt.Sprintf("\tORG\t0x%x", pick(r, []int{0x7c00, 0xc200, 0x100, 0x8000, 0})))
+		}
 		if r.Chance(1, 40) { // a configuration directive in the middle of the code, possibly repeated
 			body = append(body, pick(r, []string{"[SECTION .data]", "[SECTION .bss]", "[SECTION .text]", "[BITS 16]", "[BITS 32]", "[ABSOLUTE 0x100]", "[OPTIMIZE 1]", "[PADDING 2]", `[FILE "second.nas"]`, `[INSTRSET "i386"]`, `[FORMAT "BIN"]`}))
 		}
@@ -966,6 +969,15 @@ func genProgram(r *RNG, name string, twin bool, nonASCII bool) []*Program {
 	o := drawGenOpts(r)
 	o.NonASCII = nonASCII && r.Chance(1, 3)
 	body, hasEqu, hasGlobal := genBody(r, o)
+	if !o.Coff && o.Org < 0 && len(body) > 3 && r.Chance(1, 2) {
+		// the only ORG comes after a few bytes of data or code (the location counter is not 0 at that point)
+		at := r.Range(1, 6)
+		if at > len(body)-1 {
+			at = len(body) - 1
+		}
+		pre := []string{"\tDB\t0xeb, 0x4e, 0x90", fmt.Sprintf("\tORG\t0x%x", pick(r, []int{0x100, 0x7c00, 0xc200, 0x8000}))}
+		body = append(body[:at:at], append(pre, body[at:]...)...)
+	}
 	if r.Chance(1, 6) {
 		body = append(body, genJumpStress(r)...)
 	}
